@@ -52,7 +52,7 @@ Ltac case_count := cbn [pp_num_domains]; apply Rceil_unique; split; lra.
 
 (* one update step on a literal state *)
 Ltac case_step :=
-  cbn [pp_step pp_with_period pp_assign_period pp_set_apodization pp_with_apodization sign_mul]; unfold pp_new;
+  cbn [pp_step pp_with_period pp_assign_period pp_set_apodization pp_with_apodization pp_try_as_optimum pp_try_new_optimum sign_mul]; unfold pp_new;
   cbn [sign_mul]; split_ifs;
   repeat match goal with |- context [Rabs ?x] =>
     first [ rewrite (Rabs_right x) by lra | rewrite (Rabs_left x) by lra ] end;
